@@ -93,6 +93,20 @@ class C12(Prop):
             orders = dedup(orders)
             t = gen.infer_type([tuple(map(tuple, o)) for o in orders], m)
             yield {"kind": "opt", "type": t, "alts": gen.perm(rng, alts) if rng.random() < 0.5 else alts, "orders": orders}
+        for i in range(5 * n):
+            # many small strict profiles for the dynamic programme alone (fast): brute-force optimum + Lean model
+            m = rng.choice([3, 4, 5, 5, 6])
+            alts = gen.alt_ids(rng, m, zero_ok=True)
+            orders = dedup([[[a] for a in gen.perm(rng, alts)] for _ in range(rng.randint(2, 4))])
+            yield {"kind": "dpsmall", "type": "soc", "alts": gen.perm(rng, alts) if rng.random() < 0.5 else alts,
+                   "orders": orders}
+        for i in range(max(2, n // 10)):
+            # the same instance object analysed, grown through the public API, and analysed again
+            m = rng.choice([3, 4, 5])
+            alts = list(range(1, m + 1))
+            first = dedup([[[a] for a in gen.perm(rng, alts)] for _ in range(rng.randint(1, 3))])
+            more = dedup([[[a] for a in gen.perm(rng, alts)] for _ in range(rng.randint(1, 3))])
+            yield {"kind": "grow", "type": "soc", "alts": alts, "first": first, "more": more}
         for i in range(max(3, n // 4)):
             m = rng.choice([7, 8, 10, 12])
             alts = gen.alt_ids(rng, m)
@@ -103,8 +117,22 @@ class C12(Prop):
     def run_impl(self, case):
         from preflibtools.properties.subdomains.ordinal.singlepeaked import singlepeakedness as S
         from preflibtools.properties.subdomains.ordinal.singlepeaked.k_alternative_deletion import k_alternative_deletion
+        if case["kind"] == "grow":
+            from preflibtools.instances import OrdinalInstance
+            inst = OrdinalInstance()
+            inst.append_order_list([tuple(map(tuple, o)) for o in case["first"]])
+            with __import__("harness.core", fromlist=["quiet_fd1"]).quiet_fd1():
+                for f in (S.approx_SP_voter_deletion_ILP, S.approx_SP_alternative_deletion_ILP):
+                    call(f, inst, limit=120)            # first analysis: result not judged here
+                call(k_alternative_deletion, inst, limit=60)
+            inst.append_order_list([tuple(map(tuple, o)) for o in case["more"]])
+            case = dict(case, kind="opt", alts=[int(a) for a in inst.alternatives_name],
+                        orders=[[list(c) for c in o] for o in inst.orders], _inst=inst)
         prof = [(tuple(map(tuple, o)), 1) for o in case["orders"]]
-        mk = lambda: gen.make_ordinal(prof, alts=case["alts"], data_type=case["type"])
+        if "_inst" in case:
+            mk = lambda: case["_inst"]                 # the SAME object as in the first analysis
+        else:
+            mk = lambda: gen.make_ordinal(prof, alts=case["alts"], data_type=case["type"])
         self.count(case["kind"] + ":" + case["type"])
         obs = {}
 
@@ -126,6 +154,8 @@ class C12(Prop):
         if case["kind"] == "opt":
             obs["vd"] = ilp(S.approx_SP_voter_deletion_ILP)
             obs["ad"] = ilp(S.approx_SP_alternative_deletion_ILP)
+        if "_inst" in case:
+            obs["grown"] = {"alts": case["alts"], "orders": case["orders"]}
         if case["type"] == "soc":
             r = call(k_alternative_deletion, mk(), limit=60)
             if r[0] == "ok":
@@ -137,6 +167,8 @@ class C12(Prop):
         return obs
 
     def requests(self, case, obs):
+        if "grown" in obs:
+            case = dict(case, kind="opt", alts=obs["grown"]["alts"], orders=obs["grown"]["orders"])
         certs = {}
         alts = case["alts"]
         r = obs.get("vd")
@@ -165,9 +197,19 @@ class C12(Prop):
         return reqs
 
     def nontrivial_key(self, case, obs):
+        if case["kind"] == "grow":
+            return repr(case)
         return repr((case["alts"], case["orders"])) if len(case["orders"]) >= 2 else None
 
     def judge(self, case, obs, replies):
+        if "grown" in obs:
+            shown = case
+            case = dict(case, kind="opt", alts=obs["grown"]["alts"], orders=obs["grown"]["orders"])
+            probs = self.judge(case, {k: v for k, v in obs.items() if k != "grown"}, replies)
+            for p in probs:
+                p.case = shown
+                p.what = "after analysing, appending more orders to the same instance and analysing again: " + p.what
+            return probs
         rep = replies[0]
         out = []
         P = lambda what, site: out.append(Problem("violation", case, what, site))
@@ -230,6 +272,12 @@ class C12(Prop):
         return out
 
     def shrink_candidates(self, case):
+        if case["kind"] == "grow":
+            for key in ("first", "more"):
+                for i in range(len(case[key])):
+                    if len(case[key]) > 1:
+                        yield dict(case, **{key: case[key][:i] + case[key][i + 1:]})
+            return
         os_ = case["orders"]
         for i in range(len(os_)):
             if len(os_) > 1:
